@@ -37,3 +37,23 @@ macro_rules! is_x86_feature_detected {
         $crate::verif_hooks::feature_visible($f, ::std::is_x86_feature_detected!($f))
     };
 }
+
+// H3: construction record of naive DFT nodes. `Dft::new` notes its length here (thread-local, so concurrent
+// harness workers do not mix); a harness empties the record before a planning request and reads it afterwards
+// to learn which naive O(k^2) transforms that request actually constructed, whatever the plan text says.
+thread_local! {
+    static DFT_LENS: std::cell::RefCell<Vec<usize>> = std::cell::RefCell::new(Vec::new());
+}
+#[doc(hidden)]
+pub fn note_dft(len: usize) {
+    DFT_LENS.with(|v| {
+        let mut v = v.borrow_mut();
+        if v.len() < 1 << 16 {
+            v.push(len);
+        }
+    });
+}
+/// Lengths of the naive `Dft` instances constructed on this thread since the last call (and empties the record)
+pub fn take_dft_lens() -> Vec<usize> {
+    DFT_LENS.with(|v| std::mem::take(&mut *v.borrow_mut()))
+}
